@@ -60,7 +60,8 @@ def run(tier, seed, rng):
     # ---- crash points: before every file operation of a cache update, and after n bytes of the write
     nops = 9
     jobs = []
-    for pre, victim, after in (('', 'A', 'A'), ('', 'A', 'C'), ('C', 'A', 'A'), ('C', 'A', 'C'), ('A4', 'A', 'A4'), ('Ale', 'A', 'Ale')):
+    # (Dal / Dfx: same fields, names, sizes and options; only the hooks of the described field differ)
+    for pre, victim, after in (('', 'A', 'A'), ('', 'A', 'C'), ('C', 'A', 'A'), ('C', 'A', 'C'), ('A4', 'A', 'A4'), ('Ale', 'A', 'Ale'), ('Dal', 'Dfx', 'Dal'), ('', 'Dfx', 'Dal')):
         for k in range(1, nops + 1):
             jobs.append((pre, victim, k, None, after, k % 2 == 0))
     for n in ([0, 1, 50, 200, 700, 1300, 1400] if tier == 'quick' else list(range(0, 1440, 17))):
@@ -116,7 +117,7 @@ def run(tier, seed, rng):
         rng.shuffle(picks)
         picks = picks[:4000]
     for i, s in enumerate(picks):
-        va, vb = [('A', 'A'), ('A', 'C'), ('A', 'A4'), ('A', 'Ale')][i % 4]
+        va, vb = [('A', 'A'), ('A', 'C'), ('A', 'A4'), ('A', 'Ale'), ('Dal', 'Dfx')][i % 5]
         sched.append((va, vb, s, i % 2 == 0, ['', 'C', 'A'][i % 3 if i % 5 else 0]))
     with ThreadPoolExecutor(max_workers=max(2, NPROC // 2)) as ex:
         sres = list(ex.map(scheduled, sched))
